@@ -89,6 +89,7 @@ def ghostName : Ghost → String
   | .seqDrop => "seqDrop" | .hookDrop => "hookDrop" | .progDrop => "progDrop"
   | .fallback => "fallback" | .noMatchDrop => "noMatchDrop" | .scopeLeak => "scopeLeak" | .main0Leak => "main0Leak"
   | .emptyScopeName => "emptyScopeName" | .sysExit => "sysExit"
+  | .abandon => "abandon" | .nameClash => "nameClash"
 
 def tableOf (std : String) : Option (Table × Cls × Array String) :=
   if std = "f2003" then
